@@ -148,7 +148,7 @@ def plan(tier, seed):
     shards = [{"mode": "single", "index": i, "count": 12} for i in range(12)]
     # the single-call family again on the second basetype (its leaf strings may fit several types)
     shards += [{"mode": "single", "index": i, "count": 6, "env": {"VERIF_C15_BASE": "1"}} for i in range(6)]
-    pubs = 4
+    pubs = 6
     shards += [{"mode": "bfs", "first": i} for i in range(pubs)]
     shards += [{"mode": "stateless", "index": i, "count": 4} for i in range(4)]
     return {"shards": shards}
@@ -156,7 +156,10 @@ def plan(tier, seed):
 
 def publishers(C):
     t = C["task"]
-    return [("task-A", "/".join(t)), ("scene-A", mk(t, "*", C["scene_tail"])), ("movie-A", mk(t, "v001", C["movie_tail"])), ("task-B", "/".join(C["taskB"]))]
+    return [("task-A", "/".join(t)), ("scene-A", mk(t, "*", C["scene_tail"])), ("movie-A", mk(t, "v001", C["movie_tail"])), ("task-B", "/".join(C["taskB"])),
+            # the other spelling of "the next free version": get_next on a Sid whose version is '*' / '>' (asked again and again
+            # by the same publisher between creations)
+            ("scene-A/next", mk(t, "*", C["scene_tail"])), ("version-A/next", mk(t, ">", []))]
 
 
 def run_shard(sh):
@@ -197,14 +200,15 @@ def run_shard(sh):
     psid = dict(PUB)
 
     def scope_of(name):
-        return {"task-A": ("A", "version"), "scene-A": ("A", "scene"), "movie-A": ("A", "movie"), "task-B": ("B", "version")}[name]
+        return {"task-A": ("A", "version"), "scene-A": ("A", "scene"), "movie-A": ("A", "movie"), "task-B": ("B", "version"),
+                "scene-A/next": ("A", "scene"), "version-A/next": ("A", "version")}[name]
 
     def apply_real(op, reset=True):
         if reset:
             env.reset()
         x = Sid(psid[op[1]])
         try:
-            new = x.get_new("version")
+            new = x.get_next("version") if op[1].endswith("/next") else x.get_new("version")
             if not new:
                 return ["none"]
             existed = new.exists()
@@ -318,7 +322,7 @@ def replay_case(kind, case):
             env.reset()
         x = Sid(psid[op[1]])
         try:
-            new = x.get_new("version")
+            new = x.get_next("version") if op[1].endswith("/next") else x.get_new("version")
             if not new:
                 got = ["none"]
             else:
@@ -328,7 +332,8 @@ def replay_case(kind, case):
         except SpilException as e:
             got = ["EXC", "SpilException", str(e)[:60]]
         # the same model as in run_shard
-        who, sc = {"task-A": ("A", "version"), "scene-A": ("A", "scene"), "movie-A": ("A", "movie"), "task-B": ("B", "version")}[op[1]]
+        who, sc = {"task-A": ("A", "version"), "scene-A": ("A", "scene"), "movie-A": ("A", "movie"), "task-B": ("B", "version"),
+                   "scene-A/next": ("A", "scene"), "version-A/next": ("A", "version")}[op[1]]
         key = who + ":" + sc
         cur = model.get(key, ())
         last = max(cur, key=num) if cur else None
